@@ -1139,3 +1139,115 @@ func TestC13WebSocketFloodingPeer(t *testing.T) {
 		}
 	})
 }
+
+// TestC13CancelWhileSending: the session is cancelled while the client is in the middle of
+// sending (a REQ, EVENT or CLOSE is in flight in some middleware's inbound loop at the very
+// moment). Round after round on one handler: ServeNostr returns, nothing panics, and the
+// router registry and the gauges are back where they were.
+func TestC13CancelWhileSending(t *testing.T) {
+	col := ev.For("C13").SetRule(c13Rule)
+	rapid.Check(t, func(t *rapid.T) {
+		router := mocrelay.NewRouterHandler(4)
+		var h mocrelay.Handler = router
+		base := rapid.SampledFrom([]string{"router", "router", "cache", "merge(router,cache)"}).Draw(t, "base")
+		switch base {
+		case "cache":
+			h = mocrelay.NewCacheHandler(20)
+		case "merge(router,cache)":
+			h = mocrelay.NewMergeHandler(router, mocrelay.NewCacheHandler(20))
+		}
+		reg := prometheus.NewRegistry()
+		var wraps []string
+		for i, nw := 0, rapid.IntRange(1, 3).Draw(t, "nwrap"); i < nw; i++ {
+			w := rapid.SampledFrom([]string{"prometheus", "prometheus", "logging", "maxsubs", "sendunique", "nip11"}).Draw(t, fmt.Sprintf("wrap%d", i))
+			switch w {
+			case "prometheus":
+				if len(wraps) > 0 && wraps[0] == "prometheus-used" {
+					continue
+				}
+				h = mocrelay.Middleware(mocprom.NewPrometheusMiddleware(reg))(h)
+				wraps = append([]string{"prometheus-used"}, wraps...)
+			case "logging":
+				h = mocrelay.Middleware(mocrelay.NewLoggingMiddleware(slog.New(slog.NewTextHandler(io.Discard, nil))))(h)
+			case "maxsubs":
+				h = mocrelay.Middleware(mocrelay.NewMaxSubscriptionsMiddleware(50))(h)
+			case "sendunique":
+				h = mocrelay.Middleware(mocrelay.NewSendEventUniqueFilterMiddleware(8))(h)
+			case "nip11":
+				h = mocrelay.BuildMiddlewareFromNIP11(&mocrelay.NIP11{Limitation: &mocrelay.NIP11Limitation{MaxSubscriptions: 50, MaxFilters: 3, MaxLimit: 100}})(h)
+			}
+			wraps = append(wraps, w)
+		}
+		rounds := rapid.IntRange(50, 300).Draw(t, "rounds")
+		desc := map[string]any{"composition": base, "wrapped_in": wraps, "rounds": rounds, "scenario": "cancel while the client is sending"}
+		time.Sleep(time.Millisecond)
+		baseG, _ := mocrelayGoroutines()
+		authors := gen.Pubkeys(1)
+		for r := 0; r < rounds; r++ {
+			ctx, cancel := context.WithCancel(context.Background())
+			recv := make(chan mocrelay.ClientMsg)
+			send := make(chan mocrelay.ServerMsg)
+			ret := make(chan error, 1)
+			go func() { ret <- h.ServeNostr(ctx, send, recv) }()
+			stop := make(chan struct{})
+			senderDone := make(chan struct{})
+			go func() {
+				defer close(senderDone)
+				for i := 0; ; i++ {
+					var m mocrelay.ClientMsg
+					switch i % 3 {
+					case 0:
+						m = &mocrelay.ClientReqMsg{SubscriptionID: fmt.Sprint("s", i%7), ReqFilters: []*mocrelay.ReqFilter{{Kinds: []int64{1}}}}
+					case 1:
+						e := &mocrelay.Event{Pubkey: authors[0], Kind: 1, CreatedAt: time.Now().Unix(), Tags: []mocrelay.Tag{}, Content: fmt.Sprint(r, i)}
+						gen.Seal(e)
+						m = &mocrelay.ClientEventMsg{Event: e}
+					default:
+						m = &mocrelay.ClientCloseMsg{SubscriptionID: fmt.Sprint("s", (i+3)%7)}
+					}
+					select {
+					case recv <- m:
+					case <-send:
+					case <-stop:
+						return
+					}
+				}
+			}()
+			// somewhere within the first few hundred microseconds of traffic
+			for k := 0; k < (r*13)%200; k++ {
+				runtime.Gosched()
+			}
+			cancel()
+			select {
+			case <-ret:
+			case <-time.After(5 * time.Second):
+				_, sample := mocrelayGoroutines()
+				hx.Fail(t, ev.Failure{Property: "C13", Signature: "serve-does-not-return", Clause: "whenever a session's context is cancelled, at any point of any message history, serving returns promptly", Case: desc, Observed: fmt.Sprintf("round %d: not returned after 5 s; a goroutine: %s", r, firstLines(sample, 12))})
+			}
+			close(stop)
+			<-senderDone
+		}
+		deadline := time.Now().Add(5 * time.Second)
+		for {
+			cur, sample := mocrelayGoroutines()
+			if cur <= baseG {
+				break
+			}
+			if time.Now().After(deadline) {
+				hx.Fail(t, ev.Failure{Property: "C13", Signature: "goroutine-leak", Clause: "every goroutine the sessions started has exited", Case: desc,
+					Observed: fmt.Sprintf("%d goroutines with a mocrelay frame, baseline %d; one of them: %s", cur, baseG, firstLines(sample, 14))})
+			}
+			time.Sleep(2 * time.Millisecond)
+		}
+		if s, c := router.VerifSubscriptionCount(); s != 0 || c != 0 {
+			hx.Fail(t, ev.Failure{Property: "C13", Signature: "router-registry-leak", Clause: "afterwards nothing of the session remains: its live subscriptions are gone from the router", Case: desc,
+				Observed: fmt.Sprintf("%d subscriptions of %d connections still registered", s, c)})
+		}
+		if gc, gr := gauges(reg); gc != 0 || gr != 0 {
+			hx.Fail(t, ev.Failure{Property: "C13", Signature: "gauge-leak", Clause: "connection/subscription gauges are back to their previous values", Case: desc,
+				Observed: fmt.Sprintf("connection gauge %v, subscription gauge %v after all sessions ended", gc, gr)})
+		}
+		col.Label("scenario:cancel-while-sending")
+		col.Case(true, hx.JSON(desc), func() any { return desc })
+	})
+}
